@@ -12,7 +12,9 @@
 (*                                  the shape of its module path (Bank!    *)
 (*                                  URefsOf); the trace also says which    *)
 (*                                  uninstalled search path (`ghost`) the  *)
-(*                                  root interface was configured with.    *)
+(*                                  root interface was configured with,    *)
+(*                                  and in which way each abstract class   *)
+(*                                  is abstract (`ways`, Bank!AbsWays).    *)
 (* <<"VERDICT", trace, matched events, length>>                            *)
 (***************************************************************************)
 EXTENDS Bank, IOUtils, TLCExt
@@ -25,6 +27,7 @@ E == Tr.events[l]
 TInit == /\ tid \in 1..Len(Batch.traces) /\ l = 1
          /\ u = Uni(Batch.traces[tid].cls, <<0>>)
          /\ Batch.traces[tid].ghost \in GhostsAll    \* (the requirement is the same under each of them)
+         /\ WaysOK(Batch.traces[tid].cls, Batch.traces[tid].ways)    \* (... and under each way of being abstract)
          /\ att = <<>> /\ acc = {} /\ imp = {} /\ gets = 0 /\ hist = <<>>
 TReg == /\ l <= Len(Tr.events) /\ E.op = "reg"
         /\ Register(E.c)
